@@ -8,6 +8,7 @@ import (
 	"strings"
 
 	"golang.org/x/tools/go/ssa"
+	"golang.org/x/tools/go/ssa/ssautil"
 )
 
 func (x *Exec) shouldInline(fn *ssa.Function) bool {
@@ -390,6 +391,44 @@ func (x *Exec) callByContract(st *State, fr *Frame, call *ssa.Call, callee *ssa.
 		for i, c := range as.comp {
 			havoc(c, as.srt[i])
 		}
+	}
+	// a callee that appends to a slice it is given may write into that slice's spare capacity (an in-place append is not a
+	// frame violation, see DESIGN 12.2): the elements between len and cap of such an argument are unknown afterwards
+	for i := range x.appendsTo(callee) {
+		if i >= len(callee.Params) {
+			continue
+		}
+		sl, ok := types.Unalias(callee.Params[i].Type()).Underlying().(*types.Slice)
+		if !ok {
+			continue
+		}
+		at := penv[callee.Params[i].Name()].T
+		if at == nil || at.Sort != SSlice {
+			continue
+		}
+		es := x.TI.SortOf(sl.Elem())
+		comp, cs := hsComp(es), hsSort(es)
+		already := false
+		for _, as := range asgs {
+			for _, c := range as.comp {
+				if c == comp && as.id.String() == SlArr(at).String() {
+					already = true
+				}
+			}
+		}
+		if already {
+			continue
+		}
+		h := x.heapGet(st, comp, cs)
+		_, rowSort := cs.ArrayParts()
+		row := x.freshVar(comp+"_sparerow", rowSort)
+		x.rowWfAssume(st, row, comp, st.alloc)
+		k := Var("spk", SInt)
+		lo := Arith("+", SlOff(at), SlLen(at))
+		hi := Arith("+", SlOff(at), SlCap(at))
+		oldRow := Select(h, SlArr(at))
+		st.assume(Forall([]*Term{k}, Implies(Or(Cmp("<", k, lo), Cmp(">=", k, hi)), Eq(Select(row, k), Select(oldRow, k))), []*Term{Select(row, k)}))
+		st.heap[comp] = Store(h, SlArr(at), row)
 	}
 	// results
 	res := x.freshResult(st, call.Type(), "ret_"+sanitize(callee.Name()))
@@ -949,4 +988,94 @@ func (x *Exec) linkAbstractDefinitions(st *State, v SV, it types.Type, arg Val) 
 			}
 		}
 	}
+}
+
+
+// appendsTo: the parameter positions of fn that it (or a library function it hands them to) appends to.  Syntactic, over
+// go/ssa: an append whose first operand is the parameter, a re-slice of it, or a local that was assigned from it.
+func (x *Exec) appendsTo(fn *ssa.Function) map[int]bool {
+	if x.appendSum == nil {
+		x.appendSum = map[*ssa.Function]map[int]bool{}
+		var fns []*ssa.Function
+		for f := range ssautil.AllFunctions(x.prog) {
+			if f.Blocks != nil && f.Pkg != nil && strings.Contains(f.Pkg.Pkg.Path(), "RealDecisionMaker/lib") {
+				fns = append(fns, f)
+			}
+		}
+		var root func(v ssa.Value, f *ssa.Function, depth int) int
+		root = func(v ssa.Value, f *ssa.Function, depth int) int {
+			if depth > 8 {
+				return -1
+			}
+			switch v := v.(type) {
+			case *ssa.Parameter:
+				for i, p := range f.Params {
+					if p == v {
+						if _, ok := types.Unalias(p.Type()).Underlying().(*types.Slice); ok {
+							return i
+						}
+					}
+				}
+			case *ssa.Slice:
+				return root(v.X, f, depth+1)
+			case *ssa.ChangeType:
+				return root(v.X, f, depth+1)
+			case *ssa.UnOp:
+				if a, ok := v.X.(*ssa.Alloc); ok && v.Op.String() == "*" && a.Referrers() != nil {
+					for _, r := range *a.Referrers() {
+						if st, ok := r.(*ssa.Store); ok && st.Addr == a {
+							if _, isCall := st.Val.(*ssa.Call); isCall {
+								continue // the result of an append assigned back: still the same variable
+							}
+							if i := root(st.Val, f, depth+1); i >= 0 {
+								return i
+							}
+						}
+					}
+				}
+			}
+			return -1
+		}
+		mark := func(f *ssa.Function, i int) bool {
+			if i < 0 {
+				return false
+			}
+			if x.appendSum[f] == nil {
+				x.appendSum[f] = map[int]bool{}
+			}
+			if x.appendSum[f][i] {
+				return false
+			}
+			x.appendSum[f][i] = true
+			return true
+		}
+		for changed := true; changed; {
+			changed = false
+			for _, f := range fns {
+				for _, b := range f.Blocks {
+					for _, ins := range b.Instrs {
+						c, ok := ins.(ssa.CallInstruction)
+						if !ok {
+							continue
+						}
+						cc := c.Common()
+						if bi, ok := cc.Value.(*ssa.Builtin); ok && bi.Name() == "append" && len(cc.Args) > 0 {
+							if mark(f, root(cc.Args[0], f, 0)) {
+								changed = true
+							}
+							continue
+						}
+						if callee := cc.StaticCallee(); callee != nil {
+							for j := range x.appendSum[callee] {
+								if j < len(cc.Args) && mark(f, root(cc.Args[j], f, 0)) {
+									changed = true
+								}
+							}
+						}
+					}
+				}
+			}
+		}
+	}
+	return x.appendSum[fn]
 }
